@@ -146,10 +146,10 @@ def cases(chk):
                 else:
                     spec[p] = ["falsy"]
             yield "object", {"schema": name, "spec": spec}
-    for _ in range(chk.scale(400, 20000)):
+    for _ in range(chk.scale(4000, 80000)):
         name = r.choice(names + ["message", "message", "contextinfo"])
         yield "object", {"schema": name, "spec": gen_spec(r, name, 0, req)}
-    for _ in range(chk.scale(60, 2000)):
+    for _ in range(chk.scale(400, 8000)):
         kind = r.choice(["conversation", "image", "contact", "location", "extended_text", "document", "audio", "video", "sticker"])
         yield "entity", {"kind": kind, "seed": r.randrange(1 << 30), "group": r.random() < 0.3}
 
